@@ -46,8 +46,42 @@ type record struct {
 	Inner *record `json:"inner"`
 }
 
+// Values whose Go kind is a number or a bool but whose JSON encoding is a string (the usual Go
+// enum with MarshalText / MarshalJSON, e.g. slog.Level): the label is set when the value is built.
+var enumLabel string
+
+type enumText int
+
+func (e enumText) MarshalText() ([]byte, error) { return []byte(enumLabel), nil }
+
+type ratioText float64
+
+func (r ratioText) MarshalText() ([]byte, error) { return []byte(enumLabel), nil }
+
+type flagJSON bool
+
+func (f flagJSON) MarshalJSON() ([]byte, error) { return json.Marshal(enumLabel) }
+
+type uintJSON uint8
+
+func (u uintJSON) MarshalJSON() ([]byte, error) {
+	return json.Marshal(map[string]any{"name": enumLabel, "n": int(u)})
+}
+
 func (v Val) build() any {
 	switch v.Kind {
+	case "enum":
+		enumLabel = string(v.S)
+		switch v.I % 4 {
+		case 0:
+			return enumText(2)
+		case 1:
+			return ratioText(1.5)
+		case 2:
+			return flagJSON(true)
+		default:
+			return uintJSON(7)
+		}
 	case "string":
 		return string(v.S)
 	case "int":
@@ -127,7 +161,7 @@ type Case struct {
 
 var rec = ev.New("C03", "c03.positions",
 	"compiled fixtures for every JavaScript position (bare {{ }}, inside '…', \"…\", `…`, a script with comments/quotes/escapes around several expressions, script template in on* attribute and as component, templ.JSFuncCall in attribute and as component with generated function names, JSON script element) are rendered with generated Go values "+
-		"(strings over a JS/HTML-adversarial alphabet, every scalar value as a one-rune string in the thorough tier, invalid UTF-8, ints, finite floats, bools, nil, nested slices/maps/structs, json.RawMessage values whose text was encoded without HTML escaping, and values without a JSON encoding - NaN, Inf, structs holding a channel/func or NaN next to a string - for which only oracle 1 and the sentinel part of oracle 2 apply); oracle 1: HTML5 tokenizer sees the same structure as for a benign value (script element = one text token, on* attribute = one attribute); "+
+		"(strings over a JS/HTML-adversarial alphabet, every scalar value as a one-rune string in the thorough tier, invalid UTF-8, ints, finite floats, bools, nil, nested slices/maps/structs, json.RawMessage values whose text was encoded without HTML escaping, values of int / float / bool / uint kind whose MarshalText or MarshalJSON yields a string or an object, and values without a JSON encoding - NaN, Inf, structs holding a channel/func or NaN next to a string - for which only oracle 1 and the sentinel part of oracle 2 apply); oracle 1: HTML5 tokenizer sees the same structure as for a benign value (script element = one text token, on* attribute = one attribute); "+
 		"oracle 2: V8 evaluates the emitted script bodies and decoded attribute values: no syntax error or exception, no sentinel (alert/pwn) call, and the values reaching cap() equal JSON.stringify(JSON.parse(<Go's JSON encoding>)) computed in the same engine (the original string for in-literal positions). "+
 		"Non-trivial = the value contains a JS- or HTML-sensitive character; distinct by (position, value)")
 
@@ -396,11 +430,13 @@ func init() {
 
 func genVal(depth int) *rapid.Generator[Val] {
 	return rapid.Custom(func(t *rapid.T) Val {
-		k := rapid.IntRange(0, 13).Draw(t, "kind")
-		if depth <= 0 && k >= 8 && k != 12 {
+		k := rapid.IntRange(0, 14).Draw(t, "kind")
+		if depth <= 0 && k >= 8 && k != 12 && k != 14 {
 			k = 0
 		}
 		switch {
+		case k == 14:
+			return Val{Kind: "enum", I: int64(rapid.IntRange(0, 3).Draw(t, "enumType")), S: ev.QStr(sgen.JSString().Draw(t, "label"))}
 		case k == 13:
 			return Val{Kind: "rawjson", Items: []Val{genVal(depth-1).Draw(t, "rawinner")}}
 		case k == 12:
